@@ -88,6 +88,11 @@ def run(chk, tier):
     import putback
     npb = putback.run(chk, P)
     chk.floor("R-PUTBACK", "adopted-child fields", npb, 2)
+    chk.rule("R-COMPACTALL", "a helper that compacts several parallel arrays (discovered: >= 3 pointer parameters each with an element move `P[i] = P[j]`) moves elements inside every one of them "
+             "when all are present (explored with every pointer argument non-NULL): no two compactions are exclusive")
+    import compactall
+    nca = compactall.run(chk, P, ["distances.c"])
+    chk.floor("R-COMPACTALL", "parallel arrays of compaction helpers", nca, 3)
     chk.decided += ['a failed insertion gives every adopted child back completely (parent and sibling links restored by the put-back path)',
                     'hwloc_topology_insert_group_object() never returns the emptied shell of a Group whose contents were moved into an existing one',
                     'parallel arrays of a distances structure are compacted together before its count is lowered',
